@@ -525,9 +525,13 @@ func (e *c01Env) partFilterProcess() c01Part {
 			pks = []c01Pk{c01Packetisations[0], c01Packetisations[3]} // quick: all packetisations only without a file / with an empty file at the path
 		}
 		pk := pks[x.In(len(pks))]
-		caseID := fmt.Sprintf("filter-process input=%s ext=%q worktree=%s packets=%s", in.Name, ext, wt, pk.name)
+		delay := false
+		if e.thorough || wt.Kind == "absent" {
+			delay = x.In(2) == 1 // capability=delay negotiated, can-delay=1 on the smudge request
+		}
+		caseID := fmt.Sprintf("filter-process input=%s ext=%q worktree=%s packets=%s can-delay=%v", in.Name, ext, wt, pk.name, delay)
 		r := vx.Result{Evals: 1, Counters: map[string]int64{}, Sample: map[string]interface{}{"delivery": "real `git-lfs filter-process`, own pkt-line client: command=clean then command=smudge of the returned pointer in the same session",
-			"input": in.Name, "bytes": n, "extension": ext, "worktree_file": wt.String(), "packet_payload_sizes": pk.name}}
+			"input": in.Name, "bytes": n, "extension": ext, "worktree_file": wt.String(), "packet_payload_sizes": pk.name, "can_delay": delay}}
 		if n > 0 {
 			r.NonTrivial = []string{caseID}
 		}
@@ -542,7 +546,7 @@ func (e *c01Env) partFilterProcess() c01Part {
 				r.Counters["clause:"+k] += v
 			}
 		}()
-		fp, err := c01StartFP(w, repo, nil)
+		fp, err := c01StartFP(w, repo, nil, delay)
 		if err != nil {
 			if fp != nil {
 				fp.Close()
@@ -1345,7 +1349,7 @@ func c01Describe(c *vx.Check, e *c01Env) {
 		"chunkings: all compositions for sizes<=6, otherwise every set of <=2 cut points from {1,1023,1024,1025,65516,size-1} (look-alikes: also end of the pointer text -1/0/+1) plus 1 byte per read for sizes<=1025; EOF reported separately or together with the last data. " +
 		"working-tree file at the named path: absent, same bytes, prefix of length 0/1/100/1023/1024/1025/size-1, longer by 1 and by 2000. extensions: none, rot (tr; size preserving), chain rot+pfx (pfx prepends 4 bytes). " +
 		"inproc: full product on commands.clean/commands.smudge (+ stored object already present / present with wrong size; the emitted pointer smudged again as one read, 1 byte per read, cut at 1/60/60+120, and for three inputs at every position). " +
-		"oneshot: the real binary through a kernel pipe with exact chunking (quick: <=1 cut; thorough: <=2). filterprocess: packet payload sizes {1 (sizes<=1025),1023,1024,1025,65516,alternating 1/65516}. " +
+		"oneshot: the real binary through a kernel pipe with exact chunking (quick: <=1 cut; thorough: <=2). filterprocess: packet payload sizes {1 (sizes<=1025),1023,1024,1025,65516,alternating 1/65516} x {plain, capability=delay + can-delay=1 on smudge (quick: only without a file at the path)}. " +
 		"extfail: a pointer-extension program exiting 3 (only / last / non-last program) x {wrote nothing, wrote 3 bytes, exited before reading} x {clean, smudge} x {inproc, oneshot, git add+checkout with both filter modes} on 5 inputs (thorough: all text and look-alike inputs), judged only when git-lfs reports success. whitespace-only inputs of 1,2,1023,1024,1025,2048 bytes are part of the input set. " +
 		"git: git add + git checkout -f over absent/shorter/longer file, git hash-object --path with absent/shorter/longer file + git cat-file --filters, with filter-process and with one-shot filters. merge: git merge through git lfs merge-driver with merged size having fewer/equal/more digits than the current side, merged 1023/1024 bytes, look-alike text, documented --program. " +
 		"distinct_nontrivial = distinct cases with a non-empty input (the empty input is the trivial case); every case evaluates: pointer parses, size = content length, oid = SHA-256, object stored under the oid with exactly those bytes, extension lines, smudge yields the input"
